@@ -6,6 +6,59 @@ from vlib import Check
 from checks.decoder_common import decoder_models, decoder_traces
 
 
+def truncated_files(chk, tier):
+    """File level: reading a prefix returns exactly the complete blocks, identical to the full file's, then end-of-input."""
+    import json
+    import random
+    import shutil
+    from checks.reader_common import make_files, reader_dumps
+    from checks.c18 import segs
+    rng = random.Random(chk.seed * 41 + 5)
+    work = vlib.scratch("c05f")
+    files = make_files(work, rng, 6 if tier == "quick" else 40, nops=(10, 25), big=2 if tier == "quick" else 8)
+    cdir = work / "cuts"
+    cdir.mkdir()
+    jobs = []
+    W = 65535
+    for f in files:
+        data = f.read_bytes()
+        n = len(data)
+        cuts = set([0, 1, 2, 5, n - 1, n - 2, n // 2, n])
+        for k in range(1, n // W + 1):
+            for d in (range(-3, 4) if tier == "quick" else range(-40, 41)):
+                if 0 <= k * W + d <= n:
+                    cuts.add(k * W + d)
+        # around every block boundary: offsets come from the TLA+ parse; here every offset near a 0xA? map start is tried too
+        for _ in range(12 if tier == "quick" else 500):
+            cuts.add(rng.randrange(0, n + 1))
+        if n < 4000:
+            cuts.update(range(0, n + 1, 1 if tier == "thorough" else 7))
+        for c in sorted(cuts):
+            p = cdir / f"{f.stem}_c{c}.cdns"
+            p.write_bytes(data[:c])
+            jobs.append((f, c, p))
+    dumps, crashes = reader_dumps(work, list(files) + [p for _, _, p in jobs], label="c05rd")
+    nsh = vlib.NCPU
+    traces = [work / f"c05f.{i}.ndjson" for i in range(nsh)]
+    hs = [open(t, "w") for t in traces]
+    for k, (f, c, p) in enumerate(jobs):
+        if p.name not in dumps or f.name not in dumps:
+            continue
+        big = f.stat().st_size > 60000
+        ev = {"e": "P", "cut": c, "orig": segs(f.read_bytes()), "rd_orig": dumps[f.name]["rd"], "rd_cut": dumps[p.name]["rd"]}
+        hs[k % nsh].write(json.dumps(ev) + "\n")
+    for h in hs:
+        h.write('{"e":"END"}\n')
+        h.close()
+    merged = vlib.validate_traces("TraceReader", traces, constants={}, timeout=2400, label="c05ftv", xmx="4g")
+    for c in crashes:
+        merged["viol"].append({"prop": "C05,C03", "what": "reader crashed on a truncated file: " + json.dumps(c)[:300]})
+    chk.samples.append({"truncated_files": len(jobs), "example_cut": jobs[0][1]})
+    chk.add_traces(merged, relevant={"C05"})
+    shutil.rmtree(work, ignore_errors=True)
+    return merged
+
+
 def run(tier):
     chk = Check("C05", tier, "model_checking")
     chk.rule = ("stream lengths k*W+d (k=0..3, d=-2..2) x stream kind (string, file, unopened) x first op (peek/read) x "
@@ -15,7 +68,8 @@ def run(tier):
     m1 = decoder_traces(chk, tier, {"C05"}, "lengths")
     m2 = decoder_traces(chk, tier, {"C05"}, "lengths", scaled=True)
     m3 = decoder_traces(chk, tier, {"C05"}, "items")
-    chk.distinct = m1["execs"] + m2["execs"] + m3["execs"]
+    m4 = truncated_files(chk, tier)
+    chk.distinct = m1["execs"] + m2["execs"] + m3["execs"] + m4["execs"]
     return chk.finish()
 
 
